@@ -512,6 +512,8 @@ struct Search<'a> {
     opts: ObsOpts,
     budget: u64,
     leaf_mismatch: Option<String>,
+    /// the probe on which the final state first differs, for every order that explains the results
+    leaf_keys: BTreeSet<String>,
 }
 
 impl<'a> Search<'a> {
@@ -533,6 +535,9 @@ impl<'a> Search<'a> {
                 Some((k, w, g)) => {
                     if self.leaf_mismatch.is_none() {
                         self.leaf_mismatch = Some(format!("probe {} shows {} but this order requires {}", crate::exec::shorten_key(k), g, w));
+                    }
+                    if self.leaf_keys.len() < 64 {
+                        let _ = self.leaf_keys.insert(k.split('/').next().unwrap_or("").to_string());
                     }
                     Some(false)
                 }
@@ -1902,7 +1907,7 @@ pub fn run_conc_full(trace: &Trace, scratch: PathBuf, verbose: bool, known_open:
         keyed.sort();
         hint = keyed.into_iter().map(|(_, i)| i).collect();
     }
-    let mut search = Search { recs: &sorted, per_thread, enc: &enc, final_obs: &final_obs, opts: ObsOpts { battery: false, extra: false, offsets: true }, budget: 200_000, leaf_mismatch: None };
+    let mut search = Search { recs: &sorted, per_thread, enc: &enc, final_obs: &final_obs, opts: ObsOpts { battery: false, extra: false, offsets: true }, budget: 200_000, leaf_mismatch: None, leaf_keys: BTreeSet::new() };
     let mut next = vec![0usize; n];
     let verdict = search.dfs(&mut next, &model, &hint, 0);
     let mut finding = None;
@@ -1927,11 +1932,53 @@ pub fn run_conc_full(trace: &Trace, scratch: PathBuf, verbose: bool, known_open:
                 for (i, r) in noq.iter().enumerate() {
                     per2[r.thread].push(i);
                 }
-                let mut s2 = Search { recs: &noq, per_thread: per2, enc: &enc, final_obs: &final_obs, opts: ObsOpts { battery: false, extra: false, offsets: true }, budget: 200_000, leaf_mismatch: None };
+                let mut s2 = Search { recs: &noq, per_thread: per2, enc: &enc, final_obs: &final_obs, opts: ObsOpts { battery: false, extra: false, offsets: true }, budget: 200_000, leaf_mismatch: None, leaf_keys: BTreeSet::new() };
                 let mut next2 = vec![0usize; n];
                 if s2.dfs(&mut next2, &model, &[], 0) == Some(true) {
                     props.push("C05");
                     detail.push_str("; C05: stores, removals and lookups are explained by an order, the query answers are not: an answer is not the exact answer for any state the store was in");
+                }
+            }
+            // the same question for the other kinds of answers: leave one kind out; if the rest is
+            // explained, answers of that kind are the exact answer of no state
+            let classes: [(&str, &'static str, fn(&Op) -> bool); 4] = [
+                ("holder lookups", "C09", |o| matches!(o, Op::Holder(_))),
+                ("marker lookups", "C11", |o| matches!(o, Op::AddrDeleted(_) | Op::IsDeleted(_))),
+                ("statistics reports", "C17", |o| matches!(o, Op::Stats)),
+                ("lookups by id and by offset", "C04", |o| matches!(o, Op::Get(_) | Op::GetOff(_) | Op::Has(_))),
+            ];
+            for (what, prop, is_class) in classes {
+                if props.contains(&prop) || !sorted.iter().any(|r| is_class(&r.op)) {
+                    continue;
+                }
+                let rest: Vec<OpRecord> = sorted.iter().filter(|r| !is_class(&r.op)).cloned().collect();
+                let mut per2: Vec<Vec<usize>> = vec![vec![]; n];
+                for (i, r) in rest.iter().enumerate() {
+                    per2[r.thread].push(i);
+                }
+                let mut s2 = Search { recs: &rest, per_thread: per2, enc: &enc, final_obs: &final_obs, opts: ObsOpts { battery: false, extra: false, offsets: true }, budget: 100_000, leaf_mismatch: None, leaf_keys: BTreeSet::new() };
+                let mut next2 = vec![0usize; n];
+                if s2.dfs(&mut next2, &model, &[], 0) == Some(true) {
+                    props.push(prop);
+                    detail.push_str(&format!("; {prop}: everything but the {what} is explained by an order: one of them is the exact answer of no state the store was in"));
+                }
+            }
+            // the results are explained by some orders, but in every one of them the final state
+            // differs on the same kind of probe: what that probe shows is wrong whatever happened
+            if search.leaf_keys.len() == 1 {
+                let kind = search.leaf_keys.iter().next().cloned().unwrap_or_default();
+                let ps: &[&'static str] = match kind.as_str() {
+                    "repl" | "prepl" => &["C09"],
+                    "delid" | "deladdr" => &["C11"],
+                    "count" => &["C17"],
+                    "off" => &["C04", "C15"],
+                    _ => &[],
+                };
+                for p in ps {
+                    if !props.contains(p) {
+                        props.push(p);
+                        detail.push_str(&format!("; {p}: in every order that explains the results the final state differs on a {kind}/ probe"));
+                    }
                 }
             }
             let mut inv = state_invariants(&store, &model, &sorted, &enc);
